@@ -68,4 +68,30 @@ theorem groupLoop_union (arr : Arr) (nz e : Nat) (gs : List String) (acc : Bool)
     rw [ih _ (fun g' hg' => hk g' (List.mem_cons_of_mem _ hg')) (fun g' hg' => hall g' (List.mem_cons_of_mem _ hg'))]
     simp [Bool.or_assoc]
 
+/-! Facts about one exposure value `e ≤ top` — finite tables over `(int(n_z = 1), e)`. -/
+
+theorem partition_tbl : ∀ arr : Arr, ∀ f, f < 2 → ∀ e, e < 6 →
+    e ≤ (match arr with | .square => 3 | .hexagonal => 5) - f →
+    (groupTestF arr f "corner" e).toNat + (groupTestF arr f "edge" e).toNat
+      + (if arr = .square ∧ f = 0 then (groupTestF arr f "side" e).toNat else 0)
+      + (groupTestF arr f "core" e).toNat = 1 := by
+  intro arr; cases arr <;> decide
+
+theorem synonym_tbl : ∀ arr : Arr, ∀ f, f < 2 → ∀ e, e < 6 →
+    (groupTestF arr f "center" e = groupTestF arr f "core" e)
+    ∧ ((arr = .hexagonal ∨ f = 1) → groupTestF arr f "side" e = groupTestF arr f "edge" e) := by
+  intro arr; cases arr <;> decide
+
+theorem labels_tbl : ∀ arr : Arr, ∀ f, f < 2 → ∀ e, e < 6 →
+    e ≤ (match arr with | .square => 3 | .hexagonal => 5) - f →
+    statsLabelF arr f e = trajLabelF arr f e
+    ∧ ∃ s ∈ ["corner", "edge", "side", "core"], statsLabelF arr f e = .name s
+        ∧ groupTestF arr f s e = true
+        ∧ ∀ g ∈ ["corner", "edge", "side", "core", "center"],
+            (groupTestF arr f g e = true ↔ canonF arr f g = canonF arr f s) := by
+  intro arr; cases arr <;> decide
+
+theorem top_lt_six (arr : Arr) (nz e : Nat) (h : e ≤ top arr nz) : e < 6 := by
+  unfold top at h; cases arr <;> simp only at h <;> omega
+
 end Snow.Groups
